@@ -19,12 +19,12 @@ SPEC = dict(
          'wait(timeout)/tryWait; Signal: set/reset/wait/wait(timeout); Monitor: set and guarded lock-wait-unlock blocks), under pthread-shim perturbation (asan/plain) or TSan. '
          'Every operation is recorded with global invoke/return sequence numbers and monotonic time. distinct = hash of the observed invoke/return order; non-trivial = >= 6 operations. '
          'Oracles: offline linearizability of each Mutex/Semaphore/Signal history; plain occupancy/owner variables inside critical sections; timed waits returning false lasted >= timeout - 1 ms; '
-         'Monitor: k-th successful wait needs k set() calls invoked before it returns, and a waiter proven inside wait() is released by set(); destroy-right-after-wait templates; set();reset() with W waiters proven parked must release all W; Thread::join value and visibility.',
+         'Monitor: k-th successful wait needs k set() calls invoked before it returns, and a waiter proven inside wait() is released by set(); destroy-right-after-wait templates; set();reset() with W waiters proven parked must release all W; strict Monitor handshake (one set() issued while a waiter is proven inside wait() and the previous set() was consumed => exactly one more successful wait, with timed waiters timing out concurrently); sem_timedwait interrupted by injected EINTR must be retried; Thread::join value and visibility.',
     assumptions=['kernel-originated spurious wake-ups and wall-clock steps cannot be forced; shim-injected legal spurious wake-ups are used instead',
                  'bounded progress: a blocked scenario is a violation only if every thread is provably blocked without timeout, or a 30-60 s handshake bound expires (5+ orders of magnitude above a wake-up)'],
     jobs=jobs3('mutex', 'mutex', 1600, 32000) + jobs3('semaphore', 'semaphore', 1600, 32000) + jobs3('signal', 'signal', 1600, 32000) + jobs3('monitor', 'monitor', 1600, 32000)
-         + jobs3('destroy', 'destroy', 3200, 64000, rec=False) + jobs3('pulse', 'pulse', 1600, 32000, rec=False)[1:] + jobs3('thread', 'thread', 1600, 32000, rec=False),
+         + jobs3('destroy', 'destroy', 3200, 64000, rec=False) + jobs3('pulse', 'pulse', 1600, 32000, rec=False)[1:] + jobs3('monitor-strict', 'monitor-strict', 640, 12800, rec=False) + jobs3('thread', 'thread', 1600, 32000, rec=False),
     post=lambda ctx: lincheck.check_files(ctx, None),
-    floors={Q: dict(ops=100000, histories_linearizability_checked=9000, timed_false_lower_bound_checked=2000, destroy_after_wait_runs=4000, pulse_runs=2000, thread_joins=5000, monitor_successful_waits=1000),
-            T: dict(ops=2000000, histories_linearizability_checked=180000, timed_false_lower_bound_checked=40000, destroy_after_wait_runs=80000, pulse_runs=40000, thread_joins=100000, monitor_successful_waits=20000)},
+    floors={Q: dict(ops=100000, histories_linearizability_checked=9000, timed_false_lower_bound_checked=2000, destroy_after_wait_runs=4000, pulse_runs=2000, monitor_strict_sets=5000, monitor_strict_timed_timeouts=1000, pthread_shim_injected_eintr=200, thread_joins=5000, monitor_successful_waits=1000),
+            T: dict(ops=2000000, histories_linearizability_checked=180000, timed_false_lower_bound_checked=40000, destroy_after_wait_runs=80000, pulse_runs=40000, monitor_strict_sets=100000, monitor_strict_timed_timeouts=20000, pthread_shim_injected_eintr=4000, thread_joins=100000, monitor_successful_waits=20000)},
 )
